@@ -13,6 +13,7 @@
 package main
 
 import (
+	"bytes"
 	"context"
 	"encoding/binary"
 	"encoding/json"
@@ -89,8 +90,13 @@ type scenario struct {
 	lines []string
 }
 
-func genScenario(r *hx.Rng, name string, thorough bool) scenario {
+func genScenario(r *hx.Rng, name string, thorough bool, search bool) scenario {
 	sc := scenario{name: name}
+	// fork configuration: a share of the sessions runs before Proposal008 (no executed-transaction check in verifyBlock)
+	p008 := !r.Chance(1, 4)
+	if !p008 {
+		sc.lines = append(sc.lines, "cfg p008 0")
+	}
 	ntx := 2 + r.Intn(5)
 	for i := 0; i < ntx; i++ {
 		sc.lines = append(sc.lines, fmt.Sprintf("tx t%d", i))
@@ -118,6 +124,10 @@ func genScenario(r *hx.Rng, name string, thorough bool) scenario {
 			}
 		}
 		return false
+	}
+	bigSkipAt := 0
+	if r.Chance(1, 10) {
+		bigSkipAt = 1 + r.Intn(maxBlocks)
 	}
 	eqTarget := map[int]int{} // block -> block on another branch below the same parent with the same cumulative QN
 	// 0 chainy, 1 bushy, 2 two long forks, 3 random, 4/5 ladder: one main chain, forks off every rung,
@@ -172,7 +182,13 @@ func genScenario(r *hx.Rng, name string, thorough bool) scenario {
 		if r.Chance(1, skipDen) {
 			h += 1 + r.Intn(2)
 		}
+		if bigSkipAt == i {
+			h = par.height + 95 + r.Intn(10) // boundary: around the topBlocks capacity / buildCache window (100)
+		}
 		qn := r.Pick(1, 1, 1, 2, 2, 3)
+		if r.Chance(1, 12) {
+			qn = 0 // boundary: a block that adds no weight (equal cumulative QN with its parent)
+		}
 		pvLo, pvHi := 0, 0
 		// forks: aim at EQUAL cumulative QN with a block on another branch below the same parent, the
 		// tip sitting at, above or below that block's height, so that the tie-break at the fork point decides
@@ -235,7 +251,7 @@ func genScenario(r *hx.Rng, name string, thorough bool) scenario {
 		nt := r.Pick(0, 0, 1, 1, 2)
 		for j := 0; j < nt; j++ {
 			t := r.Intn(ntx)
-			if used[t] && !r.Chance(1, 8) { // mostly fresh on this branch; siblings may share
+			if used[t] && (!p008 || !r.Chance(1, 8)) { // mostly fresh on this branch (always, before Proposal008: such a block is invalid and nothing rejects it); siblings may share
 				continue
 			}
 			dup := false
@@ -340,6 +356,14 @@ func genScenario(r *hx.Rng, name string, thorough bool) scenario {
 		if r.Chance(1, 10) {
 			sc.lines = append(sc.lines, fmt.Sprintf("pool t%d", r.Intn(ntx)))
 		}
+	}
+	if search && r.Chance(1, 3) {
+		// concurrency evidence: everything again, from several goroutines at once
+		var ls []string
+		for _, b := range order {
+			ls = append(ls, fmt.Sprintf("b%d", b))
+		}
+		sc.lines = append(sc.lines, "par "+strings.Join(ls, ","))
 	}
 	// second pass: re-deliver everything (blocks rejected earlier may now win or be duplicates)
 	if r.Chance(1, 2) || shape == 6 {
@@ -480,6 +504,44 @@ func (g *gateState) hook(file, op string, key []byte, n int) bool {
 	return true
 }
 
+// fault mode: the write that would start token k is not performed and an error is returned to the
+// caller through the store API (once; the process lives on). Token counting as in hook().
+type faultState struct {
+	mu     sync.Mutex
+	armed  bool
+	k      int
+	fired  bool
+	tok    string
+	tokens []string
+	inSt   bool
+}
+
+var fgate faultState
+
+func (g *faultState) begin(armed bool, k int) {
+	g.mu.Lock()
+	defer g.mu.Unlock()
+	g.armed, g.k, g.fired, g.tok, g.tokens, g.inSt = armed, k, false, "", nil, false
+}
+
+func (g *faultState) hook(file, op string, key []byte, n int) error {
+	g.mu.Lock()
+	defer g.mu.Unlock()
+	t := classify(file, op, key, n, gate.labelOf)
+	isState := t == "st"
+	newTok := !(isState && g.inSt && len(g.tokens) > 0)
+	if g.armed && !g.fired && newTok && len(g.tokens) == g.k {
+		g.fired, g.tok = true, t
+		g.inSt = false
+		return fmt.Errorf("verif c05: injected write fault at %s", t)
+	}
+	if newTok {
+		g.tokens = append(g.tokens, t)
+	}
+	g.inSt = isState
+	return nil
+}
+
 // ---------------------------------------------------------------------------
 // child: run one scenario against the real chain
 
@@ -493,25 +555,31 @@ type blockInfo struct {
 	flag     string
 	block    *types.Block
 	goodRoot common.Hash
+	lastCopy *types.Block
 }
 
 type child struct {
-	out     *hx.Out
-	blocks  map[string]*blockInfo // by label
-	byHash  map[common.Hash]*blockInfo
-	order   []string // labels in declaration order
-	txs     map[string]*types.Transaction
-	txOrder []string
-	txByH   map[common.Hash]string
-	maxH    uint64
-	sdb     account.AccountDatabase
-	dead    bool // process death simulated, must restart before anything else
-	viol    []map[string]string
-	name    string
-	script  []string // executed op lines so far
-	scnText string   // the scenario as given (re-runnable with scn=<file>)
-	monitor bool
-	genesis common.Hash
+	out        *hx.Out
+	blocks     map[string]*blockInfo // by label
+	byHash     map[common.Hash]*blockInfo
+	order      []string // labels in declaration order
+	txs        map[string]*types.Transaction
+	txOrder    []string
+	txByH      map[common.Hash]string
+	maxH       uint64
+	sdb        account.AccountDatabase
+	dead       bool // process death simulated, must restart before anything else
+	viol       []map[string]string
+	name       string
+	script     []string    // executed op lines so far
+	scnText    string      // the scenario as given (re-runnable with scn=<file>)
+	violPath   string      // violations are appended here the moment they are found
+	handed     []handedOut // headers the chain handed out earlier (retention check)
+	search     bool
+	faultStats map[string]int
+	stop       bool
+	monitor    bool
+	genesis    common.Hash
 }
 
 var (
@@ -536,8 +604,16 @@ func bootChain() error {
 
 func (c *child) violation(key, desc string) {
 	if len(c.viol) < 20 {
-		c.viol = append(c.viol, map[string]string{"key": key, "desc": desc, "scenario": c.name,
-			"script": c.scnText})
+		v := map[string]string{"key": key, "desc": desc, "scenario": c.name, "script": c.scnText}
+		c.viol = append(c.viol, v)
+		// flushed when found: a child that hangs or dies later still reports it
+		if c.violPath != "" {
+			if f, err := os.OpenFile(c.violPath, os.O_APPEND|os.O_CREATE|os.O_WRONLY, 0644); err == nil {
+				j, _ := json.Marshal(v)
+				f.Write(append(j, '\n'))
+				f.Close()
+			}
+		}
 	}
 }
 
@@ -557,6 +633,33 @@ func resName(r types.AddBlockResult) string {
 		return "depgroup"
 	}
 	return "code" + strconv.Itoa(int(r))
+}
+
+// a header object the chain returned earlier, with its serialisation at that time
+type handedOut struct {
+	what string
+	ptr  *types.BlockHeader
+	raw  []byte
+}
+
+func (c *child) retain(what string, h *types.BlockHeader) {
+	if h == nil || len(c.handed) >= 64 {
+		return
+	}
+	raw, err := types.MarshalBlockHeader(h)
+	if err == nil {
+		c.handed = append(c.handed, handedOut{what, h, raw})
+	}
+}
+
+// retention phase: objects handed out by earlier calls must not change under later operations
+func (c *child) checkRetained(ctx string) {
+	for _, ho := range c.handed {
+		raw, err := types.MarshalBlockHeader(ho.ptr)
+		if err != nil || !bytes.Equal(raw, ho.raw) {
+			c.violation("handed-out-header-mutated", fmt.Sprintf("%s: a header returned earlier by %s was changed in place by a later operation", ctx, ho.what))
+		}
+	}
 }
 
 // guarded runs f with the gate armed; classifies the outcome.
@@ -630,7 +733,7 @@ func (c *child) view() string {
 			tc = append(tc, fmt.Sprintf("%d:%s", h, c.labelOfHash(bh.Hash.Bytes())))
 		}
 	}
-	sb.WriteString(" H=" + joinOrDash(hs) + " Q=" + joinOrDash(cs) + " VH=" + joinOrDash(vs) + " TC=" + joinOrDash(tc))
+	sb.WriteString(" H=" + joinOrDash(hs) + " Q=" + joinOrDash(cs) + " VH=" + joinOrDash(vs) + " TC=" + tcView(c.maxH, tc))
 	var bs, ver, fut []string
 	for _, l := range c.order {
 		b := c.blocks[l]
@@ -662,6 +765,17 @@ func (c *child) view() string {
 	}
 	sb.WriteString(" T=" + joinOrDash(ts))
 	return sb.String()
+}
+
+// the topBlocks LRU (capacity 100, start-up fills it with one entry per height of the window, nil for skipped
+// heights) starts evicting once a scenario reaches ~100 heights; which entries it keeps depends on the recency
+// of every cached lookup and is not modelled (cache_transparent: it cannot be observed through the queries, and
+// Q= compares those at every height). Its content is compared only below that.
+func tcView(maxH uint64, tc []string) string {
+	if maxH >= 90 {
+		return "~"
+	}
+	return joinOrDash(tc)
 }
 
 func joinOrDash(xs []string) string {
@@ -716,6 +830,13 @@ func (c *child) checkInv(ctx string) {
 		if b == nil {
 			c.violation("head-unreachable", fmt.Sprintf("%s: block %s on the parent path of the head is not in the hash index", ctx, c.labelOfHash(h.Bytes())))
 			break
+		}
+		if bi, ok := c.byHash[h]; ok {
+			rh := bi.block.Header
+			if b.Header.Height != rh.Height || b.Header.PreHash != rh.PreHash || b.Header.TotalQN != rh.TotalQN ||
+				b.Header.ProveValue.Cmp(rh.ProveValue) != 0 || b.Header.StateTree != rh.StateTree || len(b.Transactions) != len(bi.block.Transactions) {
+				c.violation("stored-block-differs", fmt.Sprintf("%s: the hash index returns for %s a block that differs from the delivered one", ctx, bi.label))
+			}
 		}
 		if b.Header.Height >= lastH {
 			c.violation("head-unreachable", fmt.Sprintf("%s: heights do not decrease along the parent path at %s", ctx, c.labelOfHash(h.Bytes())))
@@ -792,6 +913,14 @@ func (c *child) checkInv(ctx string) {
 				}
 			}
 		}
+	}
+	c.checkRetained(ctx)
+	c.retain("TopBlock", chain.TopBlock())
+	if qb := chain.QueryBlock(head.Height); qb != nil {
+		c.retain("QueryBlock", qb.Header)
+	}
+	if hh := chain.QueryBlockHeaderByHeight(head.Height, true); hh != nil {
+		c.retain("QueryBlockHeaderByHeight", hh)
 	}
 	if !core.VerifC05StateOpens(head.StateTree) {
 		c.violation("state-root-missing", ctx+": the head's state root cannot be opened")
@@ -978,10 +1107,54 @@ func (c *child) run(sc scenario) {
 		if len(f) == 0 || strings.HasPrefix(f[0], "#") {
 			continue
 		}
+		if c.stop {
+			break
+		}
 		if c.dead && f[0] != "restart" && f[0] != "restartc" && f[0] != "tx" && f[0] != "blk" {
 			continue // nothing can run between death and restart
 		}
 		switch f[0] {
+		case "cfg":
+			if f[1] == "p008" && f[2] == "0" {
+				common.LocalChainConfig.Proposal008Block = 1 << 62
+			}
+			c.emit("cfg "+f[1]+" "+f[2], "ok")
+		case "par":
+			// concurrency (evidence, not proof): deliver the listed blocks from several goroutines while a reader queries
+			labels := strings.Split(f[1], ",")
+			var wg sync.WaitGroup
+			stop := make(chan struct{})
+			readerDone := make(chan struct{})
+			go func() {
+				defer close(readerDone)
+				for {
+					select {
+					case <-stop:
+						return
+					default:
+						for hh := uint64(0); hh <= c.maxH; hh++ {
+							core.GetBlockChain().QueryBlock(hh)
+						}
+					}
+				}
+			}()
+			for _, l := range labels {
+				bi := c.blocks[l]
+				if bi == nil {
+					continue
+				}
+				wg.Add(1)
+				go func(b *types.Block) {
+					defer wg.Done()
+					defer func() { recover() }()
+					core.GetBlockChain().AddBlockOnChain(copyBlock(b))
+				}(bi.block)
+			}
+			wg.Wait()
+			close(stop)
+			<-readerDone
+			c.emit("par "+f[1], "done")
+			c.checkInv("after concurrent delivery of " + f[1])
 		case "tx":
 			tx := &types.Transaction{Source: fundedA, Target: "0x42c8c9b13fc0573d18028b3398a887c4297ff646", Type: types.TransactionTypeOperatorEvent,
 				Time: "2024-04-22", Data: f[1], Nonce: uint64(len(c.txs) + 1), ChainId: "9500"}
@@ -1055,6 +1228,79 @@ func (c *child) run(sc scenario) {
 		case "addnil":
 			res, toks, _ := c.guarded(false, 0, 0, func() string { return resName(core.GetBlockChain().AddBlockOnChain(nil)) })
 			c.emit("addnil", res+" "+wstr(toks))
+		case "addf":
+			// write fault (an error returned by the store, not a death) in front of write token k of this delivery
+			bi := c.blocks[f[1]]
+			k, _ := strconv.Atoi(f[2])
+			old := core.VerifC05Head().Hash
+			fgate.begin(true, k)
+			res, _, _ := c.guarded(false, 0, 0, func() string { return resName(core.GetBlockChain().AddBlockOnChain(copyBlock(bi.block))) })
+			fgate.mu.Lock()
+			fired, tok := fgate.fired, fgate.tok
+			fgate.armed = false
+			fgate.mu.Unlock()
+			cls := strings.SplitN(tok, ":", 2)[0]
+			c.emit(fmt.Sprintf("addf %s %d", f[1], k), res+" fault="+tok)
+			if strings.HasPrefix(res, "PANIC") {
+				c.violation("fault-panic", fmt.Sprintf("addf %s %d: a store write returning an error (%s) made AddBlockOnChain panic: %s", f[1], k, tok, res))
+				c.dead = true
+				lastCrashBlock, preCrashHead = bi, old
+				continue
+			}
+			// asserted only for a plain extension and for the writes whose error the code checks; everything else
+			// (errors the code ignores, faults inside a reorg) is recorded in the statistics: store errors are outside
+			// the property's quantifier
+			own := k <= 6 && (cls != "bh" || tok == "bh:"+f[1]) && (cls != "hh" || tok == fmt.Sprintf("hh:%d", bi.block.Header.Height))
+			checked := fired && own && bi.block.Header.PreHash == old && (cls == "bh" || cls == "hh" || cls == "st" || cls == "cur")
+			if checked {
+				// the code checks this error: it must surface and the in-memory head must not move
+				if res != "failed" {
+					c.violation("fault-not-surfaced", fmt.Sprintf("addf %s %d: the store returned an error at %s but AddBlockOnChain answered %s", f[1], k, tok, res))
+				}
+				if core.VerifC05Head().Hash != old {
+					c.violation("fault-head-moved", fmt.Sprintf("addf %s %d: the head moved although the write %s failed", f[1], k, tok))
+				}
+			}
+			c.faultStats[cls+"->"+res]++
+			if fired && !checked {
+				// an error the code ignores (or a fault inside a reorg): the store is now in a state the property
+				// does not speak about; only "no panic, restart works" is asserted from here on
+				c.monitor = false
+			}
+			// the store has recovered; a restart must bring back a consistent chain, and for a checked error the old head
+			r2, _, _ := c.guarded(false, 0, 0, func() string {
+				if err := bootChain(); err != nil {
+					return "err"
+				}
+				return "ok"
+			})
+			c.emit("restart", r2+" W=?")
+			if r2 != "ok" {
+				c.violation("restart-panic", "restart after write fault at "+tok+": "+r2)
+				c.dead = true
+				continue
+			}
+			if fired && !checked {
+				// nothing more can be asserted about this store (e.g. a delete that failed silently inside a reorg
+				// leaves an index entry behind; further deliveries can then recurse without bound in addBlockOnChain)
+				c.stop = true
+				continue
+			}
+			if checked {
+				c.checkInv("after write fault at " + tok + " and restart")
+				if core.VerifC05Head().Hash != old {
+					c.violation("fault-head-moved", fmt.Sprintf("after write fault at %s and restart the head is not the old head", tok))
+				}
+				// … from which a retry succeeds
+				if bi.flag == "ok" && bi.block.Header.PreHash == old {
+					r3, _, _ := c.guarded(false, 0, 0, func() string { return resName(core.GetBlockChain().AddBlockOnChain(copyBlock(bi.block))) })
+					c.emit("add "+f[1], r3+" W=?")
+					if r3 != "succ" {
+						c.violation("fault-retry-failed", fmt.Sprintf("after write fault at %s and restart, delivering %s again answered %s", tok, f[1], r3))
+					}
+					c.checkInv("after retry of " + f[1])
+				}
+			}
 		case "add", "addc":
 			bi := c.blocks[f[1]]
 			armed := f[0] == "addc"
@@ -1066,7 +1312,15 @@ func (c *child) run(sc scenario) {
 			old := core.VerifC05Head().Hash
 			// deliver a copy, the way a block arrives from the network (own header object)
 			cp := copyBlock(bi.block)
+			if bi.lastCopy != nil && len(line)%2 == 0 {
+				cp = bi.lastCopy // history phase: the very same object is delivered again
+			}
+			bi.lastCopy = cp
+			argBefore, _ := types.MarshalBlockHeader(cp.Header)
 			res, toks, fired := c.guarded(armed, k, sub, func() string { return resName(core.GetBlockChain().AddBlockOnChain(cp)) })
+			if argAfter, err := types.MarshalBlockHeader(cp.Header); err != nil || !bytes.Equal(argBefore, argAfter) {
+				c.violation("argument-mutated", "add "+f[1]+": AddBlockOnChain changed the header of the block it was given")
+			}
 			if fired {
 				inState := 0
 				if sub > 0 && len(toks) > 0 && toks[len(toks)-1] == "st" {
@@ -1150,6 +1404,7 @@ type childResult struct {
 	Kinds map[string]int      `json:"kinds"`
 	Res   map[string]int      `json:"res"`
 	N     int                 `json:"n"`
+	Fault map[string]int      `json:"fault"`
 }
 
 func runChild(a map[string]string) {
@@ -1163,10 +1418,13 @@ func runChild(a map[string]string) {
 		panic(err)
 	}
 	c := &child{out: out, blocks: map[string]*blockInfo{}, byHash: map[common.Hash]*blockInfo{}, txs: map[string]*types.Transaction{},
-		txByH: map[common.Hash]string{}, monitor: true}
+		txByH: map[common.Hash]string{}, monitor: true, violPath: a["viol"], faultStats: map[string]int{}}
+	if !setFaultGate(fgate.hook) && a["fault"] == "1" {
+		panic("fault mode needs a build with -tags c05fault against a repository with hook H2b-c05")
+	}
 	c.run(sc)
 	out.Close()
-	cr := childResult{Viol: c.viol, Kinds: out.Kinds, Res: out.Results, N: out.N}
+	cr := childResult{Viol: c.viol, Kinds: out.Kinds, Res: out.Results, N: out.N, Fault: c.faultStats}
 	j, _ := json.Marshal(cr)
 	ioutil.WriteFile(a["result"], j, 0644)
 }
@@ -1200,21 +1458,44 @@ func main() {
 			}
 		}
 	}
-	if a["scn"] != "" { // replay of one scenario file
+	if mode == "fault" {
+		a["faultchild"] = "1"
+		// deterministic family first: a fault in front of every write token of an extension, and of a reorg
+		for k := 0; k < 10; k++ {
+			scs = append(scs, scenario{name: fmt.Sprintf("fault/ext%d", k), lines: []string{"tx t0", "tx t1",
+				"blk b1 b0 1 1 5 t0 ok", "blk b2 b1 2 1 5 t1 ok", "blk b3 b2 4 1 5 - ok", "pool t1",
+				"add b1", fmt.Sprintf("addf b2 %d", k), "add b2", "add b3"}})
+		}
+		for k := 0; k < 18; k++ {
+			scs = append(scs, scenario{name: fmt.Sprintf("fault/reorg%d", k), lines: []string{"tx t0", "tx t1",
+				"blk b1 b0 1 1 5 t0 ok", "blk b2 b1 2 1 5 - ok", "blk b3 b0 1 5 5 t1 ok",
+				"add b1", "add b2", fmt.Sprintf("addf b3 %d", k), "restart", "add b3"}})
+		}
+		n := hx.ArgInt(a, "n", 40)
+		for i := 0; i < n; i++ {
+			sc := genScenario(r.Fork(), fmt.Sprintf("fgen%d", i), false, false)
+			for j, l := range sc.lines {
+				if strings.HasPrefix(l, "addc ") {
+					sc.lines[j] = "add " + strings.Fields(l)[1]
+				} else if strings.HasPrefix(l, "restartc") {
+					sc.lines[j] = "restart"
+				} else if strings.HasPrefix(l, "add b") && r.Chance(1, 3) {
+					sc.lines[j] = fmt.Sprintf("addf %s %d", strings.Fields(l)[1], r.Intn(10))
+				}
+			}
+			scs = append(scs, sc)
+		}
+	} else if a["scn"] != "" { // replay of one scenario file
 		raw, err := ioutil.ReadFile(a["scn"])
 		if err != nil {
 			panic(err)
 		}
 		scs = []scenario{{name: "replay", lines: strings.Split(string(raw), "\n")}}
 	} else {
-		n := hx.ArgInt(a, "n", 40)
-		for i := 0; i < n; i++ {
-			scs = append(scs, genScenario(r.Fork(), fmt.Sprintf("gen%d", i), thorough))
-		}
 		nx := hx.ArgInt(a, "exhaustive", 0)
 		for i := 0; i < nx; i++ {
 			rr := r.Fork()
-			base := genScenario(rr, fmt.Sprintf("ex%d", i), false)
+			base := genScenario(rr, fmt.Sprintf("ex%d", i), false, false)
 			// strip crashes from the base, keep it small
 			var lines []string
 			adds := 0
@@ -1235,6 +1516,10 @@ func main() {
 			}
 			base.lines = lines
 			scs = append(scs, crashVariants(base, hx.ArgInt(a, "maxk", 24))...)
+		}
+		n := hx.ArgInt(a, "n", 40)
+		for i := 0; i < n; i++ {
+			scs = append(scs, genScenario(r.Fork(), fmt.Sprintf("gen%d", i), thorough, mode == "search"))
 		}
 	}
 	workers := hx.ArgInt(a, "workers", 12)
@@ -1257,9 +1542,9 @@ func main() {
 				os.MkdirAll(d, 0755)
 				scn := filepath.Join(d, "scn.txt")
 				ioutil.WriteFile(scn, []byte(strings.Join(j.sc.lines, "\n")), 0644)
-				cctx, cancel := context.WithTimeout(context.Background(), 30*time.Second)
+				cctx, cancel := context.WithTimeout(context.Background(), 120*time.Second)
 				cmd := exec.CommandContext(cctx, self, "child=1", "scn="+scn, "name="+j.sc.name, "ops="+filepath.Join(d, "ops"), "obs="+filepath.Join(d, "obs"),
-					"result="+filepath.Join(d, "result"))
+					"result="+filepath.Join(d, "result"), "viol="+filepath.Join(d, "viol"), "fault="+a["faultchild"])
 				cmd.Dir = d
 				cmd.Env = append(os.Environ(), "GOMAXPROCS=2")
 				outb, err := cmd.CombinedOutput()
@@ -1273,6 +1558,14 @@ func main() {
 				}
 				if raw, err := ioutil.ReadFile(filepath.Join(d, "result")); err == nil {
 					json.Unmarshal(raw, &results[j.i])
+				} else if raw, err := ioutil.ReadFile(filepath.Join(d, "viol")); err == nil {
+					// the child did not finish: take what it flushed
+					for _, l := range strings.Split(string(raw), "\n") {
+						var v map[string]string
+						if json.Unmarshal([]byte(l), &v) == nil && v != nil {
+							results[j.i].Viol = append(results[j.i].Viol, v)
+						}
+					}
 				}
 				// keep ops/obs, drop the stores
 				os.RemoveAll(filepath.Join(d, "storage0"))
@@ -1295,6 +1588,7 @@ func main() {
 		panic(err)
 	}
 	kinds, res := map[string]int{}, map[string]int{}
+	faultStats := map[string]int{}
 	total := 0
 	var viol []map[string]string
 	nfail := 0
@@ -1310,6 +1604,9 @@ func main() {
 		for k, v := range results[i].Res {
 			res[k] += v
 		}
+		for k, v := range results[i].Fault {
+			faultStats[k] += v
+		}
 		total += results[i].N
 		viol = append(viol, results[i].Viol...)
 		if fails[i] != "" {
@@ -1324,7 +1621,7 @@ func main() {
 	if len(viol) > 40 {
 		viol = viol[:40]
 	}
-	st := map[string]interface{}{"ops": total, "scenarios": len(scs), "kinds": kinds, "results": res, "violations": viol, "child_failures": nfail, "mode": mode}
+	st := map[string]interface{}{"ops": total, "scenarios": len(scs), "kinds": kinds, "results": res, "violations": viol, "child_failures": nfail, "mode": mode, "fault_outcomes": faultStats}
 	j, _ := json.Marshal(st)
 	fmt.Println("STATS " + string(j))
 }
